@@ -166,19 +166,20 @@ def jobs(tier, seed):
         red = set(REDUCED)
         rest = []
         for i, sk in enumerate(l3):
-            if all(m in red for m in sk):
+            if all(m in red for m in sk) and not heavy(sk, strict=True):
                 out.append(l3job(sk, False))
             else:
                 rest.append((i, sk))
         # the other L=3 skeletons: a VERIF_SEED-rotated sixth first, then the remainder, all
         # best-effort under the wall budget (what was not reached is listed in the evidence)
-        rest.sort(key=lambda t: (heavy(t[1]), (t[0] + seed) % 6 != 0, t[0]))
+        rest.sort(key=lambda t: (0 if all(m in red for m in t[1]) else 1 if not heavy(t[1]) else 2, (t[0] + seed) % 6 != 0, t[0]))
         for n, (i, sk) in enumerate(rest):
             j = l3job(sk, True)
+            j["max_wall_s"] = 420  # best effort: a skeleton that is not finished by then is reported as incomplete
             j["cost"] = 1000000 - n  # keep this order
             out.append(j)
         for n, sk in enumerate(skeletons(REDUCED, 4)):
-            out.append({"label": "L4:" + ",".join(sk), "harness": "prog", "args": {"mnems": sk}, "cost": 1000 - n * 0.1, "optional": True, "validate_every": 10, "timeout_ms": 8000, "cut_on_undecided": True})
+            out.append({"label": "L4:" + ",".join(sk), "harness": "prog", "args": {"mnems": sk}, "cost": 1000 - n * 0.1, "optional": True, "max_wall_s": 300, "validate_every": 10, "timeout_ms": 8000, "cut_on_undecided": True})
     return out
 
 
